@@ -51,7 +51,22 @@ fn eff_event(a: u32, bs: &[u32]) -> Value {
     for (name, f) in ops.iter() {
         res.insert(name.to_string(), json!(bs.iter().map(|b| f(ea, effects_from_bits(*b as u16))).collect::<Vec<_>>()));
     }
-    json!({"k":"eff","a":a,"bs":bs,"res":res,
+    // the provided Iterator methods must agree with next(): after k calls of next(), count() is what is left and size_hint()
+    // brackets it
+    let mut after = Vec::new();
+    for k in 0..=2usize {
+        let mut it = ea.iter();
+        for _ in 0..k {
+            let _ = it.next();
+        }
+        let (lo, hi) = it.size_hint();
+        let mut it2 = ea.iter();
+        for _ in 0..k {
+            let _ = it2.next();
+        }
+        after.push(json!({"k":k,"lo":lo,"hi":hi.map(|h| h as i64).unwrap_or(999999),"count":it2.count(),"skip_count":ea.iter().skip(k).count()}));
+    }
+    json!({"k":"eff","a":a,"bs":bs,"res":res,"after":after,
            "iter":ea.iter().map(name_of).collect::<Vec<_>>(),"debug":debug_names(ea),
            "plain":ea.is_plain(),"clear":bits_of(ea.clear())})
 }
